@@ -67,6 +67,7 @@ class Monitor:
         self.stats: Counter = Counter()
         self.budget_fn: Optional[Callable[[int, float], int]] = None
         self.last_top: Optional[Invocation] = None
+        self.tops: List[Tuple[int, int, int]] = []      # (glyphs, steps, budget) of the outermost invocations
 
     # ------------------------------------------------------------------
     def install(self) -> None:
@@ -89,6 +90,7 @@ class Monitor:
         self.fails, self.stats = [], Counter()
         self.pending = []
         self.stack = []
+        self.tops = []
         return f, s
 
     # ------------------------------------------------------------------
@@ -108,6 +110,7 @@ class Monitor:
                     run_with_budget(lambda: self.orig(container, laparams), inv.budget)  # type: ignore[misc]
                 finally:
                     inv.steps = last_steps()
+                    self.tops.append((inv.nglyphs, inv.steps, inv.budget))
             else:
                 self.orig(container, laparams)  # type: ignore[misc]
             inv.returned = True
@@ -472,7 +475,13 @@ class Verifier:
 
 
 def default_budget(nglyphs: int, cells: float) -> int:
-    """Step budget for one outermost analysis: c * n^2 * log n (documented cost of the
-    hierarchical grouping) plus a term for the Plane grid (cells of 50 units)."""
+    """Step budget for one outermost analysis of n glyphs on a page of `cells` grid cells (50 units):
+
+        200000 + n^2 * (2500 * (log2 n + 1) + 300 * cells)
+
+    n^2 log n is the documented cost of the hierarchical grouping; every one of the O(n^2) candidate pairs
+    may in addition scan the Plane cells between the two boxes (a glyph as large as the page lies in all of
+    them).  Calibration on the intact tree: no generated or sample page uses more than 5% of it (the
+    check reports a case that does as inconclusive `budget_margin_below_20x`)."""
     n = nglyphs + 2
-    return int(200000 + 4000 * n * n * (math.log2(n) + 1) + 4000 * n * cells)
+    return int(200000 + n * n * (2500 * (math.log2(n) + 1) + 300 * cells))
